@@ -15,6 +15,7 @@ import (
 	"verif/mc/core"
 	"verif/mc/gocheck"
 	"verif/mc/pipe"
+	"verif/mc/seamctl"
 )
 
 const modPath = "x.io/test"
@@ -79,6 +80,7 @@ var shapes = []string{
 	"fields-of-generic-instantiations-and-local-named-types",
 	"several-embedded-structs-first-one-documented",
 	"structs-composed-only-of-embedded-structs",
+	"first-type-in-name-order-renders-nothing",
 }
 
 type Prog struct {
@@ -205,6 +207,15 @@ func (p Prog) source(pkg string) (src, check string) {
 		expect("Wrapped.By (through Full)", "&Wrapped{Full: Full{Stamp: new(Stamp)}}", []string{"By"}, fieldDoc("By"), true)
 		expect("Wrapped.At (through Full)", "&Wrapped{Full: Full{Stamp: new(Stamp)}}", []string{"At"}, fieldDoc("At"), true)
 		expect("Audit", "new(Audit)", nil, []string{"is embedded."}, true)
+	case "first-type-in-name-order-renders-nothing":
+		// Alpha (exported, no exported field) is the first type the generator meets; later types embed
+		b.WriteString("// Alpha sorts first and has no exported field.\ntype Alpha struct{ n int }\n\nvar _ = Alpha{}.n\n\n" + td("T") + "type T struct {\n\tMeta\n\t*Stamp\n" + fd("F") + "\tF int\n}\n\n// Meta is embedded.\ntype Meta struct {\n" + fd("M") + "\tM int\n}\n\n// Stamp is embedded by pointer.\ntype Stamp struct {\n" + fd("At") + "\tAt int\n}\n")
+		expect("T", "&T{Stamp: new(Stamp)}", nil, typeDoc("T"), true)
+		expect("T.F", "&T{Stamp: new(Stamp)}", []string{"F"}, fieldDoc("F"), true)
+		expect("T.M (delegated)", "&T{Stamp: new(Stamp)}", []string{"M"}, fieldDoc("M"), true)
+		expect("T.At (delegated through the pointer)", "&T{Stamp: new(Stamp)}", []string{"At"}, fieldDoc("At"), true)
+		expect("T.NoSuch", "&T{Stamp: new(Stamp)}", []string{"NoSuch"}, nil, false)
+		fmt.Fprintf(&cb, "\tchecks++\n\tif verifkit.HasRuntimeDoc(new(Alpha)) {\n\t\tfails = append(fails, \"Alpha has no exported field but is covered\")\n\t}\n")
 	case "embeds-unexported-and-non-struct":
 		b.WriteString(td("T") + "type T struct {\n\tinner\n\tStr\n" + fd("F") + "\tF int\n}\n\ntype inner struct {\n\t// IF doc\n\tIF int\n}\n\n// Str is a defined string.\ntype Str string\n")
 		expect("T", "new(T)", nil, typeDoc("T"), true)
@@ -270,7 +281,11 @@ func checkProgs(c *core.Ctx, progs []Prog) {
 	}
 	ok1 := generate(c, root, dirs, fail)
 	t1, _ := pipe.ReadTree(root)
+	// (built with the map-order seam the second run iterates every map of the library - generators
+	// included - in DESCENDING key order, the first one in ascending order)
+	seamctl.Set(1, nil)
 	ok2 := generate(c, root, ok1, fail)
+	seamctl.Set(0, nil)
 	t2, _ := pipe.ReadTree(root)
 	gen := func(t pipe.Tree, d string) string { return t[d+"/zz_generated.runtimedoc.go"] }
 	for _, d := range ok2 {
@@ -377,7 +392,7 @@ func replay(c *core.Ctx, raw json.RawMessage) {
 func init() {
 	core.Register(&core.Prop{
 		ID: "C16", Level: "model_checking", Run: run, Replay: replay, Shards: 4,
-		Rule: "14 type shapes (exported/unexported/generic structs, embedding by value and by pointer, only-unexported fields, defined string/map/slice/func, interface, anonymous/empty/foreign/pointer field types, embedding of unexported and non-struct types) x 14 type-doc texts x 11 field-doc texts (quotes, backslashes, backquotes, %, @name', Unicode, blank line, tag line, leading name, name twice, longer word with the name as prefix); thorough: full product, quick: the diagonal + everything against none/plain/leading-name + a third of the rest. Each package is generated twice (byte-identical), compiled with the package and a harness-written check file, and run: RuntimeDoc() and RuntimeDoc(name) for every field, delegated field and unknown name vs the doc lines the harness wrote. Non-trivial = some doc text present; states = (shape, failed?)",
+		Rule: "15 type shapes (exported/unexported/generic structs, embedding by value and by pointer, only-unexported fields, defined string/map/slice/func, interface, anonymous/empty/foreign/pointer field types, embedding of unexported and non-struct types) x 14 type-doc texts x 11 field-doc texts (quotes, backslashes, backquotes, %, @name', Unicode, blank line, tag line, leading name, name twice, longer word with the name as prefix); thorough: full product, quick: the diagonal + everything against none/plain/leading-name + a third of the rest. Each package is generated twice (byte-identical; built with the map-order seam the second run iterates every map of library and generator in descending order), compiled with the package and a harness-written check file, and run: RuntimeDoc() and RuntimeDoc(name) for every field, delegated field and unknown name vs the doc lines the harness wrote. Non-trivial = some doc text present; states = (shape, failed?)",
 		Assumptions: []string{
 			"field docs starting with the field name, embedded fields with their own doc, [[embed]] lines and lines starting with go: are outside the alphabet",
 			"'leading type name removed' is read as: the first word is the name",
